@@ -265,6 +265,19 @@ func ProgSameName() *Schema {
 	return &Schema{ID: "samename", Msgs: []*Message{order, oi, refund, ri, root}, Root: root}
 }
 
+// ProgCongruent: length-delimited fields whose numbers are congruent mod 16 and need tags of the same length
+// (17/33/49, 18/34, 19/35): the FIRST byte of their tags is equal.
+//
+//	RootC { int32 lo=1; repeated string rs=17; map<string,int32> m=18; repeated SubC rm=19; string s=33; bytes b=34; SubC sm=35; repeated string rs2=49; }
+func ProgCongruent() *Schema {
+	sub := &Message{Name: "SubC"}
+	sub.Add(fld("a", 1, KInt32))
+	root := &Message{Name: "RootC"}
+	root.Add(fld("lo", 1, KInt32)).Add(rfld("rs", 17, KString)).Add(mfld("m", 18, KString, KInt32)).Add(rfld("rm", 19, KMessage).msg(sub)).
+		Add(fld("s", 33, KString)).Add(fld("b", 34, KBytes)).Add(fld("sm", 35, KMessage).msg(sub)).Add(rfld("rs2", 49, KString))
+	return &Schema{ID: "congruent", Msgs: []*Message{sub, root}, Root: root}
+}
+
 // ---------- message builders
 
 // Named value for enumeration.
